@@ -373,6 +373,12 @@ func (iv *Inv) relOutput() string {
 func (iv *Inv) Expect(t *Tree) *Expectation {
 	iv2 := *iv
 	iv2.Output = iv.relOutput()
+	// README: "-" as the output is stdout; "-" as the only input is stdin
+	if len(iv2.Inputs) == 1 && iv2.Inputs[0] == "-" {
+		iv2.Inputs = nil
+	} else if iv2.Output == "-" {
+		iv2.Output = ""
+	}
 	return iv2.expect(t)
 }
 
